@@ -1,1 +1,180 @@
-pub fn main(_args: &[String]) -> i32 { eprintln!("timers: not built yet"); 2 }
+// C17 in real time: for each (ping_timeout, pong_timeout, client pattern) one server and one
+// client; all grid points run concurrently.  The client behaves as the pattern says and
+// records when PINGs, the ERROR and the end of the connection arrive (milliseconds since
+// registration).  What the timeline must look like is decided by the specification
+// (spec/TraceTimers.tla, sharing ExpectedDrop with Keepalive.tla).
+
+use crate::core::*;
+use crate::state::*;
+use crate::wire::tokenize;
+use serde_json::{json, Value};
+use std::io::{BufWriter, Write};
+use std::time::{Duration, Instant};
+use tokio::io::{AsyncBufReadExt, AsyncWriteExt, BufReader};
+use tokio::net::TcpStream;
+
+fn answers(pattern: &str, k: u32) -> bool {
+    match pattern {
+        "never" => false,
+        "stops1" => k <= 1,
+        "stops2" => k <= 2,
+        _ => true,
+    }
+}
+fn delay_ms(pattern: &str) -> u64 {
+    match pattern {
+        "late1" => 1000,
+        "late2" => 2000,
+        _ => 0,
+    }
+}
+
+async fn run_point(ping: u64, pong: u64, pattern: String, port: u16, window_s: u64) -> Value {
+    let cfg = normalize_cfg(&json!({"ping": ping, "pong": pong}));
+    let config = build_config(&cfg, port);
+    let (main, handle) = match run_server(config).await {
+        Ok(x) => x,
+        Err(e) => return json!({"ping": ping, "pong": pong, "pattern": pattern, "error": e.to_string()}),
+    };
+    let stream = match TcpStream::connect(("127.0.0.1", port)).await {
+        Ok(s) => s,
+        Err(e) => return json!({"ping": ping, "pong": pong, "pattern": pattern, "error": e.to_string()}),
+    };
+    stream.set_nodelay(true).ok();
+    quickack(&stream);
+    let (rd, mut wr) = stream.into_split();
+    let mut rd = BufReader::new(rd);
+    let nick = "kal";
+    wr.write_all(format!("NICK {}\r\nUSER u1 0 * :Keep Alive\r\n", nick).as_bytes()).await.ok();
+    let mut line = String::new();
+    let mut t0 = Instant::now();
+    // wait for the end of the welcome burst (221)
+    loop {
+        line.clear();
+        match tokio::time::timeout(Duration::from_secs(5), rd.read_line(&mut line)).await {
+            Ok(Ok(n)) if n > 0 => {
+                if let Some(t) = tokenize(line.trim_end()) {
+                    if t.command == "221" {
+                        t0 = Instant::now();
+                        break;
+                    }
+                }
+            }
+            _ => return json!({"ping": ping, "pong": pong, "pattern": pattern, "error": "no welcome"}),
+        }
+    }
+    // the client's own PING must be answered with the same token
+    wr.write_all(b"PING mytoken42\r\n").await.ok();
+    let mut events: Vec<Value> = vec![];
+    let mut pings = 0u32;
+    let mut pong_token_ok = false;
+    let mut dropped_at: i64 = -1;
+    let mut error_at: i64 = -1;
+    let deadline = t0 + Duration::from_secs(window_s);
+    let mut pending_pongs: Vec<Instant> = vec![];
+    loop {
+        let now = Instant::now();
+        if now >= deadline {
+            break;
+        }
+        // send the PONGs that are due
+        let mut i = 0;
+        while i < pending_pongs.len() {
+            if pending_pongs[i] <= now {
+                wr.write_all(b"PONG :whatever-token\r\n").await.ok();
+                events.push(json!({"t": now.duration_since(t0).as_millis() as u64, "k": "pong-sent"}));
+                pending_pongs.remove(i);
+            } else {
+                i += 1;
+            }
+        }
+        let next_wake = pending_pongs.iter().min().cloned().unwrap_or(deadline).min(deadline);
+        line.clear();
+        let wait = next_wake.saturating_duration_since(Instant::now()).max(Duration::from_millis(1));
+        match tokio::time::timeout(wait, rd.read_line(&mut line)).await {
+            Err(_) => continue,
+            Ok(Ok(0)) | Ok(Err(_)) => {
+                dropped_at = Instant::now().duration_since(t0).as_millis() as i64;
+                events.push(json!({"t": dropped_at, "k": "eof"}));
+                break;
+            }
+            Ok(Ok(_)) => {
+                let t = Instant::now().duration_since(t0).as_millis() as u64;
+                if let Some(tok) = tokenize(line.trim_end()) {
+                    let c = tok.command.to_ascii_uppercase();
+                    if c == "PING" {
+                        pings += 1;
+                        events.push(json!({"t": t, "k": "ping"}));
+                        if answers(&pattern, pings) {
+                            pending_pongs.push(Instant::now() + Duration::from_millis(delay_ms(&pattern)));
+                        }
+                    } else if c == "PONG" {
+                        if tok.params.last().map(|x| x == "mytoken42").unwrap_or(false) {
+                            pong_token_ok = true;
+                        }
+                    } else if c.starts_with("ERROR") {
+                        error_at = t as i64;
+                        events.push(json!({"t": t, "k": "error", "text": line.trim_end()}));
+                    }
+                }
+            }
+        }
+    }
+    // C06 after the drop / C17 liveness of a kept client
+    tokio::time::sleep(Duration::from_millis(100)).await;
+    let snap: Value = serde_json::from_str(&main.verif_snapshot().await).unwrap_or(json!({}));
+    let present = !snap["users"][nick].is_null();
+    handle.abort();
+    json!({"ping": ping, "pong": pong, "pattern": pattern, "window": window_s * 1000, "pings": pings,
+           "dropped_at": dropped_at, "error_at": error_at, "pong_token_ok": pong_token_ok,
+           "user_present_after": present, "events": events})
+}
+
+pub fn main(args: &[String]) -> i32 {
+    if args.is_empty() {
+        eprintln!("timers <out.ndjson> [--grid quick|thorough]");
+        return 2;
+    }
+    let grid = arg_val(args, "--grid").unwrap_or_else(|| "quick".to_string());
+    let base: u16 = arg_val(args, "--port-base").and_then(|s| s.parse().ok()).unwrap_or(28000);
+    let points: Vec<(u64, u64)> = if grid == "thorough" {
+        vec![(1, 1), (1, 2), (2, 1), (1, 3), (3, 1), (2, 2), (2, 3), (3, 2), (2, 4), (3, 3)]
+    } else {
+        vec![(1, 1), (1, 2), (2, 1), (1, 3), (2, 2)]
+    };
+    let patterns: Vec<&str> = if grid == "thorough" {
+        vec!["always", "never", "stops1", "stops2", "late1"]
+    } else {
+        vec!["always", "never", "stops1", "late1"]
+    };
+    let rt = runtime(8);
+    let results = rt.block_on(async {
+        let mut hs = vec![];
+        let mut port = base;
+        for (pi, po) in &points {
+            for pat in &patterns {
+                // a late answer is only "in time" if the delay is below both periods
+                let k = match *pat {
+                    "never" => 1,
+                    "stops1" => 2,
+                    "stops2" => 3,
+                    _ => 3,
+                };
+                let window = k * pi + po + 2;
+                port += 1;
+                hs.push(tokio::spawn(run_point(*pi, *po, pat.to_string(), port, window)));
+            }
+        }
+        let mut out = vec![];
+        for h in hs {
+            out.push(h.await.unwrap_or(json!({"error": "task failed"})));
+        }
+        out
+    });
+    let mut w = BufWriter::new(std::fs::File::create(&args[0]).expect("create"));
+    for r in results {
+        writeln!(w, "{}", r).unwrap();
+    }
+    w.flush().unwrap();
+    0
+}
